@@ -78,6 +78,15 @@ def judge(acc, case, prog, cfg, rng):
         if prim - tau > viol * sc:
             findings.append({"key": "primal_exceeds_dual", "what": "primal %.9g > dual %.9g" % (prim, tau),
                              "defect": prim - tau, "scale": sc, "grade": "violated"})
+    # ... nor the bound the library itself returns in dual mode (whatever its own reconstruction did)
+    ret_ = case.outcome[1]
+    if prim is not None and ret_ is not None and cfg.get("mode", "dual") == "dual" and not any(f["key"] in oracles.C01_KNOWN_KEYS for f in cf):
+        held_t, viol = oracles.TOL[info["solver"]]
+        sc = cinfo["scale"]
+        acc.count("primal_vs_returned_dual_compared")
+        if prim - ret_ > viol * sc:
+            findings.append({"key": "primal_exceeds_returned_dual_bound", "what": "primal value %.9g of the solver > dual bound %.9g returned by solve()" % (prim, ret_),
+                             "defect": prim - ret_, "scale": sc, "grade": "violated"})
     # the instance must be the one of the LATEST solve when the same object is solved again after an edit
     if not any(f["grade"] == "violated" for f in findings) and rng.random() < 0.3:
         try:
